@@ -2,6 +2,7 @@ package exec
 
 import (
 	"fmt"
+	"time"
 	"go/constant"
 	"go/token"
 	"go/types"
@@ -227,6 +228,9 @@ func (m *Machine) step(t *Thread) {
 	if m.steps > m.Cfg.MaxSteps {
 		m.end(endBudget, "step budget %d exhausted", m.Cfg.MaxSteps)
 	}
+	if m.steps&1023 == 0 && !m.Ex.Deadline.IsZero() && time.Now().After(m.Ex.Deadline) {
+		m.end(endBudget, "wall-clock budget exhausted inside a path")
+	}
 	ins := f.Block.Instrs[f.PC]
 	switch i := ins.(type) {
 	case *ssa.DebugRef:
@@ -400,6 +404,20 @@ func (m *Machine) step(t *Thread) {
 	case *ssa.Slice:
 		m.doSlice(t, f, i)
 	case *ssa.Store:
+		switch sp := m.get(f, i.Addr).(type) {
+		case SymPtr:
+			v := m.get(f, i.Val).(*smt.Term)
+			for k := 0; k < sp.N; k++ {
+				old := sp.C.E[sp.Off+k].(*smt.Term)
+				sp.C.E[sp.Off+k] = smt.Ite(smt.Eq(sp.Idx, smt.BV(64, uint64(k))), v, old)
+			}
+			f.PC++
+			return
+		case AbsPtr:
+			sp.B.Arr = smt.Store(sp.B.Arr, sp.Idx, m.get(f, i.Val).(*smt.Term))
+			f.PC++
+			return
+		}
 		p := m.get(f, i.Addr).(Ptr)
 		if p.C == nil {
 			m.goPanic(t, "runtime error: invalid memory address or nil pointer dereference", ins)
@@ -464,6 +482,16 @@ func (m *Machine) unop(t *Thread, f *Frame, i *ssa.UnOp) Value {
 	x := m.get(f, i.X)
 	switch i.Op {
 	case token.MUL: // load
+		switch sp := x.(type) {
+		case SymPtr:
+			v, ok := selectByIndex(sp.C.E[sp.Off:sp.Off+sp.N], sp.Idx)
+			if !ok {
+				panic(unsupported("symbolic-index load over non-scalar cells at " + m.pos(i)))
+			}
+			return v
+		case AbsPtr:
+			return smt.Select(sp.B.Arr, sp.Idx)
+		}
 		p := x.(Ptr)
 		if p.C == nil {
 			m.goPanic(t, "runtime error: invalid memory address or nil pointer dereference", i)
@@ -532,8 +560,10 @@ func (m *Machine) doCall(t *Thread, f *Frame, i *ssa.Call) {
 // (unless deferOwner != nil, in which case the caller re-executes its RunDefers / unwinding step).
 func (m *Machine) invoke(t *Thread, fn Value, args []Value, ins ssa.Instruction, onRet func(Value), deferOwner *Frame) {
 	caller := t.top()
+	noAdv := m.noAdvanceNext
+	m.noAdvanceNext = false
 	advance := func() {
-		if deferOwner == nil && caller != nil {
+		if deferOwner == nil && caller != nil && !noAdv {
 			caller.PC++
 		}
 	}
